@@ -69,7 +69,7 @@ def make (c):
         g ['tag'] = i + 1
     gnd = spec ['media'] is not None
     lam = gen.C_MHZ / spec ['f']
-    keys = [float (k) for k in rng.permutation (9) [: int (rng.integers (1, 5))]]
+    keys = [float (k) for k in rng.permutation ([-20, -3, -1.5, 0, 1, 2, 2.5, 9, 10, 11, 20, 100]) [: int (rng.integers (1, 5))]]
     per_tag = bool (rng.random () < 0.3)
     tr = []
     for key in keys:
